@@ -114,6 +114,17 @@ def main():
                 "tools/suite.sh <scratch>  (pinned 70 tests)", "EQL_VERIF_REPO=<scratch> EQL_VERIF_DRY=1 ./run check <id>  for every id, without and with the patch; "
                 "only violations the patch adds are attributed to it", "git -C /repo worktree remove --force <scratch>"],
     }
+    # what the checks said the first time this seed was evaluated (before any strengthening it led to) is kept for good
+    first = {"reported_by_own_property_check": caught_own, "reported_by_other_checks": caught_other,
+             "analysis_error_only": bool(own.get("analysis_errors_added")) and not caught_own,
+             "verif_commit": sh("git -C %s log --format=%%h -1" % VERIF).stdout.strip()}
+    old_meta = os.path.join(dest, "meta.json")
+    if os.path.exists(old_meta):
+        try:
+            first = json.load(open(old_meta)).get("first_pass", first)
+        except Exception:
+            pass
+    meta["first_pass"] = first
     json.dump(meta, open(os.path.join(dest, "meta.json"), "w"), indent=1)
     print("kept as", dest)
     return 0
